@@ -184,6 +184,14 @@ def setup_battery(it, cfg):
         files.update({f"{root}/energy_now": ("int", now), f"{root}/energy_full": ("int", full), f"{root}/power_now": ("int", power)})
     elif cfg["names"] == "charge":
         files.update({f"{root}/charge_now": ("int", now), f"{root}/charge_full": ("int", full), f"{root}/current_now": ("int", power)})
+    elif cfg["names"] == "both":
+        # a battery exposing the energy_* (uWh) AND the charge_* (uAh) files: the energy figures are the ones to use
+        # together (mixing units gives nonsense); the charge figures are independent symbols
+        cnow, cfull, ccur = it.fresh("charge_now", "Int"), it.fresh("charge_full", "Int"), it.fresh("current_now", "Int")
+        for v in (cnow, cfull, ccur):
+            it.assume(smt.Cmp(">=", v, I(0)))
+        files.update({f"{root}/energy_now": ("int", now), f"{root}/energy_full": ("int", full), f"{root}/power_now": ("int", power),
+                      f"{root}/charge_now": ("int", cnow), f"{root}/charge_full": ("int", cfull), f"{root}/current_now": ("int", ccur)})
     elif cfg["names"] == "capacity":
         files[f"{root}/capacity"] = ("int", cap)
         files[f"{root}/time_to_empty_now"] = ("int", tte)
@@ -201,7 +209,7 @@ def setup_battery(it, cfg):
             "values": [now, full, power, cap, tte]}
 
 
-BAT_CFGS = [{"names": n, "ac": a} for n in ("energy", "charge", "capacity", "nobattery", "nothing")
+BAT_CFGS = [{"names": n, "ac": a} for n in ("energy", "charge", "both", "capacity", "nobattery", "nothing")
             for a in ("online1", "online0", "discharging", "charging", "full", "unknown", "absent")]
 
 REGISTRY.add(Contract(
@@ -209,17 +217,17 @@ REGISTRY.add(Contract(
     ensures=[
         "implies(names in ('nobattery', 'nothing'), result is None)",
         # percent = now/full*100 (0.0 for a zero 'full'), else the kernel's capacity figure
-        "implies(names in ('energy', 'charge') and full != 0, result.percent * full == 100 * now)",
-        "implies(names in ('energy', 'charge') and full == 0, result.percent == 0.0)",
+        "implies(names in ('energy', 'charge', 'both') and full != 0, result.percent * full == 100 * now)",
+        "implies(names in ('energy', 'charge', 'both') and full == 0, result.percent == 0.0)",
         "implies(names == 'capacity', result.percent == cap)",
         # plugged: AC adapter file, else the battery's status
         "implies(names not in ('nobattery', 'nothing') and ac in ('online1', 'charging', 'full'), result.power_plugged == True and result.secsleft == UNLIMITED)",
         "implies(names not in ('nobattery', 'nothing') and ac in ('online0', 'discharging'), result.power_plugged == False)",
         "implies(names not in ('nobattery', 'nothing') and ac in ('unknown', 'absent'), result.power_plugged is None)",
         # seconds left = now/power*3600 unless on mains (UNLIMITED) or unknowable (UNKNOWN)
-        "implies(names in ('energy', 'charge') and ac in ('online0', 'discharging', 'unknown', 'absent') and power != 0, "
+        "implies(names in ('energy', 'charge', 'both') and ac in ('online0', 'discharging', 'unknown', 'absent') and power != 0, "
         "result.secsleft * power <= now * 3600 and (result.secsleft + 1) * power > now * 3600)",
-        "implies(names in ('energy', 'charge') and ac in ('online0', 'discharging', 'unknown', 'absent') and power == 0, "
+        "implies(names in ('energy', 'charge', 'both') and ac in ('online0', 'discharging', 'unknown', 'absent') and power == 0, "
         "result.secsleft == UNKNOWN)",
         "implies(names == 'capacity' and ac in ('online0', 'discharging', 'unknown', 'absent'), "
         "result.secsleft == ite(tte * 60 < 0, UNKNOWN, tte * 60))",
@@ -352,6 +360,37 @@ REGISTRY.add(Contract(
     raises={}, canaries=["result == 5"], replay=None,
     note="RPM of every readable fan under its chip; an unreadable fan is skipped, a chip with no readable fan does not "
          "appear; either directory nesting"))
+
+
+# --- _pslinux.cpu_freq (sysfs variant): entry i describes CPU/policy i ---------------------------------------------------
+
+def setup_pfreq(it, cfg):
+    n = cfg["n"]
+    base = "/sys/devices/system/cpu/cpufreq"
+    # the directory listing comes back in an arbitrary order (here: reversed) and with two-digit numbers
+    order = list(reversed(range(n)))
+    paths = [f"{base}/policy{k}" for k in order]
+    files, vals = {}, {}
+    for k in range(n):
+        cur, mn, mx = it.fresh(f"cur{k}", "Int"), it.fresh(f"min{k}", "Int"), it.fresh(f"max{k}", "Int")
+        vals[k] = (cur, mn, mx)
+        files[f"{base}/policy{k}/scaling_cur_freq"] = ("int", cur)
+        files[f"{base}/policy{k}/scaling_min_freq"] = ("int", mn)
+        files[f"{base}/policy{k}/scaling_max_freq"] = ("int", mx)
+    SysFS(it, files, globs={f"{base}/policy[0-9]*": paths}).install()
+    it.env_over["_pslinux._cpu_get_cpuinfo_freq"] = EnvFunc("cpuinfo", lambda it2: [])
+    return {"args": {}, "spec": {"vals": vals, "n": n}, "values": [v for t in vals.values() for v in t]}
+
+
+REGISTRY.add(Contract(
+    "C19", LINUX_PY, "cpu_freq", which=0, name="_pslinux.cpu_freq(sysfs)", setup=setup_pfreq, env=ENV,
+    configs=[{"n": 1}, {"n": 3}, {"n": 12}],
+    ensures=["len(result) == n",
+             "forall(range(n), lambda i: result[i].current * 1000 == vals[i][0] and result[i].min * 1000 == vals[i][1] "
+             "and result[i].max * 1000 == vals[i][2])"],
+    raises={}, canaries=["len(result) == 77"], replay=None,
+    note="kHz files scaled to MHz; entry i is CPU i whatever order the directory listing has (numeric, not lexical: "
+         "policy10 comes after policy9)"))
 
 
 # --- boot_time / cpu_stats: line loops over /proc/stat ----------------------------------------------------------------
